@@ -80,6 +80,15 @@ CHECKS = {
    text="Line lengths around three limits x positions in the conversation x all 2-splits / per-octet segmentation, endless lines, all short strings over a hostile byte alphabet in three states, all sequences of valid/invalid commands around the error threshold; oracle: no panic (escaped or recovered), exact 500/close behaviour, bounded input consumption.",
    note="known finding D6 demonstrated by a directed family; random binary input is a labelled supplement",
    tech="exhaustive input x segmentation enumeration on the real code"),
+
+ "C13": dict(engine="X", cat="model_checking", ref="DESIGN.md §4 C13",
+   text="For every scenario (recipient list with duplicates x status-call sequence incl. contract violations x before/after-read split x return kind x transfer kind x backend kind) the schedule explorer enumerates the orders of backend steps, the handler's reply writes and client segments on the real LMTP server inside testing/synctest bubbles - all interleavings for short recipient lists, deviation-bounded above; replies are compared with an independent attribution function; deadlocks are detected by the runtime.",
+   note="go-smtp is built with channel-based mutexes through a build overlay (overlay/vsync) so that every blocked goroutine is visible to the explorer; stretches between scheduling points run under the Go scheduler",
+   tech="stateless schedule exploration (all interleavings / deviation-bounded) of the real code under a controlled scheduler"),
+ "C20": dict(engine="X + R", cat="model_checking", ref="DESIGN.md §4 C20",
+   text="Schedule exploration of server-level scenarios (slow/non-reading BDAT deliveries, LMTP deliveries, Shutdown with connections, all Accept-answer sequences with the virtual clock) with Server.Close/Shutdown fired at any point: all interleavings at event level, preemption-bounded at lock level (every Lock() is a scheduling point). Exact oracles for goroutine leaks and deadlocks from testing/synctest. The data-race clause: every enumerated schedule is replayed free-running under the Go race detector.",
+   note="race clause = 'each listed schedule executed once under the happens-before detector', not 'every interleaving'; a recovered nil-session panic of the command loop under a concurrent Server.Close is not part of C20's statement and not judged",
+   tech="stateless schedule exploration with deviation (preemption) bounding on the real code + happens-before race detection on the replayed schedules"),
 }
 NOT_YET = "check not built yet (work in progress, see DESIGN.md §4)"
 
@@ -95,6 +104,8 @@ m = {
    {"name": "L", "path": "/verif/h/live.go", "serves_properties": ["C03","C04","C09","C10","C12"], "kind_free_text": "lock-step driver: real handler goroutine + in-memory duplex connection + synctest.Wait for exact quiescence after each command; real TLS handshakes"},
    {"name": "BFS", "path": "/verif/checks/bfs.go", "serves_properties": ["C03","C04","C09","C10"], "kind_free_text": "explicit-state breadth-first search over command histories; successor = replay of the shortest history on a fresh real server + one abstract command; state key = private-state dump of the real Conn + reference-model state"},
    {"name": "D", "path": "/verif/h/duplex.go", "serves_properties": ["C14","C15","C16","C17","C18","C09","C10"], "kind_free_text": "real smtp.Client <-> real server (or scripted server) over an in-memory connection inside a synctest bubble; deadlock = runtime-detected"},
+   {"name": "X", "path": "/verif/h/sched.go", "serves_properties": ["C04","C13","C20"], "kind_free_text": "stateless schedule explorer: gates at backend/connection/listener/admin/clock seams (and every Lock() via the vsync overlay), one gate opened per step, synctest.Wait as the exact quiescence signal; DFS over choice sequences with deviation bounding; schedules are lists of stable names and replay"},
+   {"name": "R", "path": "/verif/checks/c20race.go", "serves_properties": ["C20"], "kind_free_text": "free-running replays of engine X's schedules in a -race build with the ordinary sync package; reports reduced to function-pair signatures"},
  ],
  "checks": [], "not_applicable": [],
  "notes": "All checks are built and run with go1.26.8 (GOTOOLCHAIN=local) because testing/synctest provides the exact 'all goroutines blocked' signal the explorers need. ./check <ID> <tier> rebuilds from /repo's working tree with -tags verif.",
